@@ -10,8 +10,9 @@ TRUSTED = [
     "Model/Factory.lean is a hand model of _factories.py and GettzFunc (tz.py) at dateutil-statement granularity; "
     "tied on every run by fact.run: same scripts and same thread schedules on the real factories and on the model "
     "(pc after every statement, identity classes of the results, LRU order, live weak keys)",
-    "standard-library calls are atomic model steps with their documented meaning: WeakValueDictionary.get/setdefault/"
-    "__setitem__, OrderedDict.pop/__setitem__/popitem(last=False)/clear/len, lock acquire/release (mutual exclusion)",
+    "standard library: one read / one write of the weak dictionary and the removal of a dead entry are single model steps "
+    "(WeakValueDictionary.setdefault is modelled as read-then-write, NOT atomic); lock acquire/release give mutual exclusion; "
+    "OrderedDict.pop/__setitem__/popitem(last=False)/clear/len have their sequential meaning (they only run under the lock: lock_discipline)",
     "garbage collection is over-approximated: a weak entry may vanish at any step once its object has no strong reference "
     "(strong cache, callers, local variables of any thread); the driver runs the CPython schedule (collect at once)",
     "harness/sched18.py: threads are scheduled one source line at a time through sys.settrace and an instrumented lock "
@@ -19,7 +20,8 @@ TRUSTED = [
     "zone __eq__ table (Model/Factory.lean eqMethod/pyEq) tied by zone.eq / zone.eqm on every ordered pair of a pool of all zone kinds",
 ]
 ASSUMPTIONS = [
-    "pre-emption inside a standard-library method (e.g. the Python body of WeakValueDictionary.setdefault) is not modelled",
+    "pre-emption inside WeakValueDictionary.setdefault is modelled (read / write are two steps) and exercised on the implementation by the "
+    "fine-granularity stream (line events inside weakref.py); pre-emption inside C-level dict / OrderedDict operations is not (GIL-atomic)",
     "gettz.nocache(name) is modelled by its result class (cacheable zone / tzlocal-or-unnamed / None); the nested tzstr factory "
     "call and the UTC constant it may return are treated as opaque zone objects (lock order gettz -> tzstr only)",
     "set_cache_size is called with a non-negative integer",
@@ -107,8 +109,11 @@ FIXED_CASES = [
 
 # beyond statement granularity (pre-emption inside the Python body of WeakValueDictionary.setdefault)
 FINE_CASES = [
-    ("tzoffset", 1, [[("call", 0, 0)], [("call", 0, 1)]], 1),
-    ("tzstr", 1, [[("call", 0, 0)], [("call", 0, 1)]], 1),
+    ("tzoffset", 1, [[("call", 0, 0)], [("call", 0, 1)]], 2),
+    ("tzstr", 1, [[("call", 0, 0)], [("call", 0, 1)]], 2),
+    ("gettz", 1, [[("call", 0, 0)], [("call", 0, 1)]], 2),
+    ("tzstr", 0, [[("call", 0, 0)], [("call", 0, 1)], [("call", 0, 0)]], 1),
+    ("tzoffset", 1, [[("call", 0, 0), ("call", 1, 0)], [("call", 1, 1), ("call", 0, 1)]], 1),
 ]
 
 
@@ -160,7 +165,7 @@ def threaded_runs(ctx):
         return ctx._c18_threads
     runs = []
     ctx._c18_shape = []
-    max_runs = ctx.budget(60, 1500)
+    max_runs = ctx.budget(60, 1000)
     with S.pinned_tz(S.LOCAL_TZ):
         for ci, (spec, cap, scripts, bound) in enumerate(FIXED_CASES):
             b = bound if ctx.tier == "thorough" or ctx.escalated else min(bound, 2)
@@ -179,23 +184,27 @@ def threaded_runs(ctx):
             def on_run(rec, fac, scripts, spec=spec, cap=cap, ci=ci):
                 runs.append(summarize(rec, spec, cap, scripts, {"policy": "prefix", "case": "fine%d" % ci, "fine": True}))
             try:
-                n, exhausted = S.explore(make, bound, ctx.budget(60, 400), on_run, fine=True)
-                ctx.count("explore_fine_%d_%s_bound%d_%s" % (ci, spec, bound, "exhausted" if exhausted else "truncated"), n)
+                b = bound if ctx.tier == "thorough" or ctx.escalated else 1
+                n, exhausted = S.explore(make, b, ctx.budget(80, 500), on_run, fine=True)
+                ctx.count("explore_fine_%d_%s_bound%d_%s" % (ci, spec, b, "exhausted" if exhausted else "truncated"), n)
             except S.ShapeChanged as ex:
                 ctx._c18_shape.append("%s: %s" % (spec, ex))
         rng = ctx.subrng("threads")
-        for i in range(ctx.budget(150, 3500)):
+        for i in range(ctx.budget(150, 2000)):
             spec, cap, scripts = gen_case(rng)
             seed = rng.randrange(1 << 30)
             rate = rng.choice([0.0, 0.05, 0.15])
+            fine = (i % 4 == 3)          # every fourth run also pre-empts inside weakref.py
+            stick = rng.choice([0.2, 0.5, 0.8])
             try:
                 fac = S.make_factory(spec, cap)
-                rec = S.run_threads(fac, scripts, S.RandomPolicy(random.Random(seed), rng.choice([0.2, 0.5, 0.8])),
-                                    env_rng=random.Random(seed + 1), env_rate=rate)
+                rec = S.run_threads(fac, scripts, S.RandomPolicy(random.Random(seed), stick),
+                                    env_rng=random.Random(seed + 1), env_rate=rate, fine=fine)
             except S.ShapeChanged as ex:
                 ctx._c18_shape.append("%s: %s" % (spec, ex))
                 continue
-            runs.append(summarize(rec, spec, cap, scripts, {"policy": "random", "seed": seed, "env_rate": rate}))
+            runs.append(summarize(rec, spec, cap, scripts, {"policy": "random", "seed": seed, "env_rate": rate,
+                                                            "fine": fine, "stickiness": stick}))
     ctx._c18_threads = runs
     return runs
 
@@ -398,7 +407,7 @@ def correspondence(ctx):
     _quiet()
     basecorr.run(ctx)
     # ---- (a) scripted single-thread runs vs the model ----
-    runs = scripted_runs(ctx, ctx.budget(80, 1500))
+    runs = scripted_runs(ctx, ctx.budget(80, 1000))
     resp = ctx.driver([r["req"] for r in runs])
     for r, m in zip(runs, resp):
         diffs = S.compare_script(r["obs"], S.parse_model(m))
@@ -413,13 +422,13 @@ def correspondence(ctx):
         ctx.mismatch("source-shape", msg, "statement table could not be built", "Model/Factory.lean statement list")
     for msg in sorted(set(m for r in truns for m in r["unmapped"]))[:4]:
         ctx.mismatch("source-shape", msg, "statement table could not be built", "Model/Factory.lean statement list")
-    truns = [r for r in truns if not r.get("fine") and not r["unmapped"]]
+    truns = [r for r in truns if not r["unmapped"]]
     resp = ctx.driver([r["req"] for r in truns])
     for r, m in zip(truns, resp):
         rec = {"labels": r["labels"], "expect": r["expect"], "rets": r["rets"], "all_returned": r["all_returned"],
                "strong": r["strong"], "weak": r["weak"], "cap": r["cap_now"]}
         diffs = S.compare_threads(rec, S.parse_model(m))
-        ctx.count("threads_%s_%s" % (r["spec"], r["policy"]))
+        ctx.count("threads_%s_%s%s" % (r["spec"], r["policy"], "_fine" if r.get("fine") else ""))
         ctx.count("thread_statements", r["steps"])
         if diffs:
             ctx.mismatch("fact.run(threads)", {k: r[k] for k in ("spec", "cap", "scripts", "schedule", "policy")},
@@ -459,7 +468,7 @@ def oracle(ctx):
         nontriv = any(x[3] and not x[4] for x in r["rets"])
         ctx.case(key, nontrivial=nontriv)
         case = {k: r[k] for k in ("mode", "spec", "cap", "scripts", "schedule", "policy")}
-        for k in ("seed", "env_rate", "fine"):
+        for k in ("seed", "env_rate", "fine", "stickiness"):
             if k in r:
                 case[k] = r[k]
         if r["errors"]:
@@ -554,14 +563,13 @@ def direct_identity(ctx, tz):
     for q in reqs:
         a = do(q)
         f1, f2 = fresh(q), fresh(q)
-        if f1 is None:
-            continue
+        if f1 is None or (q[0] == "gettz" and isinstance(f1, tz.tzutc)):
+            continue          # None, or the names GMT / UTC without a zoneinfo file: the tzutc singleton by design
         ctx.case(("fresh", q))
         ctx.count("fresh_constructor")
         if f1 is a or f2 is a or f1 is f2:
-            via = "file" if (q[0] != "gettz" or any(os.path.isfile(os.path.join(p, q[1])) for p in tz.tz.TZPATHS)) else "tzstr-or-UTC"
             ctx.violation("instance/nocache did not return a fresh object for %r" % (q,),
-                          {"op": "fresh", "kind": q[0], "arg": q[1], "resolves_via": via if q[0] == "gettz" else "constructor"}, None)
+                          {"op": "fresh", "kind": q[0], "arg": q[1]}, None)
         elif not (f1 == a and a == f1 and f1 == f2) or (f1 != a):
             ctx.violation("instance/nocache object is not equal to the cached one for %r" % (q,), {"op": "fresh_eq", "kind": q[0], "arg": q[1]}, None)
         elif behaviour(f1) != behaviour(a):
@@ -640,7 +648,7 @@ def zone_laws(ctx, tz, env):
                 variants.append(("pickle%d" % p, pickle.loads(pickle.dumps(a, p))))
             except Exception as ex:      # noqa
                 ctx.violation("pickle protocol %d of %s raised %s" % (p, la, type(ex).__name__),
-                              {"op": "pickle_raise", "tz": env, "a": la, "protocol": p, "delta_has_weekday": has_weekday(a)}, str(ex))
+                              {"op": "pickle_raise", "tz": env, "a": la, "protocol": p}, str(ex))
         for how, c in variants:
             ctx.case((how, env, la))
             ctx.count("copies_" + how)
@@ -653,14 +661,6 @@ def zone_laws(ctx, tz, env):
 
 KNOWN = {
     "D-C18-clear": lambda v: v["case"].get("op") == "cache_clear_identity",
-    "D-C18-setdefault": lambda v: (v["case"].get("mode") == "free" and v["case"].get("key", [None])[0] in ("offset", "str")
-                                   and v["case"]["what"].startswith("two live objects"))
-                                  or (v["case"].get("mode") == "threads" and v["case"].get("fine") is True
-                                      and v["case"].get("spec") in ("tzoffset", "tzstr") and v["what"].startswith("two different live objects")),
-    "D-C18-pickle01": lambda v: v["case"].get("op") == "pickle_raise" and v["case"].get("protocol") in (0, 1)
-                                and v["case"].get("delta_has_weekday") is True,
-    "D-C18-nocache": lambda v: v["case"].get("op") == "fresh" and v["case"].get("kind") == "gettz"
-                               and v["case"].get("resolves_via") == "tzstr-or-UTC",
 }
 
 
@@ -673,11 +673,11 @@ def replay(ctx, payload):
             fac = S.make_factory(c["spec"], c["cap"])
             scripts = [[tuple(o) for o in sc] for sc in c["scripts"]]
             if c.get("policy") == "random":
-                rec = S.run_threads(fac, scripts, S.RandomPolicy(random.Random(c["seed"])), env_rng=random.Random(c["seed"] + 1),
-                                    env_rate=c.get("env_rate", 0.0))
+                rec = S.run_threads(fac, scripts, S.RandomPolicy(random.Random(c["seed"]), c.get("stickiness", 0.5)),
+                                    env_rng=random.Random(c["seed"] + 1), env_rate=c.get("env_rate", 0.0), fine=bool(c.get("fine")))
                 if rec["schedule"] != c["schedule"]:
                     fac = S.make_factory(c["spec"], c["cap"])
-                    rec = S.run_threads(fac, scripts, S.PrefixPolicy(c["schedule"]))
+                    rec = S.run_threads(fac, scripts, S.PrefixPolicy(c["schedule"]), fine=bool(c.get("fine")))
             else:
                 rec = S.run_threads(fac, scripts, S.PrefixPolicy(c["schedule"]), fine=bool(c.get("fine")))
         print("schedule %s\nreturns %s\nerrors %s duplicates %s all_returned %s" % (rec["schedule"], rec["rets"], rec["errors"], rec["dups"], rec["all_returned"]))
